@@ -111,19 +111,16 @@ func c18RangeCases(slice, of int) []c18Case {
 			strs = append(strs, a+b)
 		}
 	}
-	strs = append(strs, "\x00\xff\xf0", "\xff\xf0\x00", "\xff\xff\xff", "\x00\x00\x00", "\x00\x01\x80")
+	strs = append(strs, "\x00\xff\xf0", "\xff\xf0\x00", "\xff\xff\xff", "\x00\x00\x00", "\x00\x01\x80", "")
 	n := 0
 	for si, s := range strs {
 		var setup [][]string
 		if si == 0 {
 			setup = [][]string{{"DEL", "b0"}} // missing key
 		} else {
-			setup = [][]string{{"SET", "b0", s}}
+			setup = [][]string{{"SET", "b0", s}} // (the last entry is an existing key holding the empty string)
 		}
 		L := len(s)
-		if si == 0 {
-			L = 0
-		}
 		for _, unit := range []string{"", "BYTE", "BIT"} {
 			u := 1
 			if unit == "BIT" {
